@@ -262,9 +262,9 @@ def dims_for(t: dict) -> Lattice:
     if has(t, "ImageSubType"):
         d.append(Dim("subtype", ["main", "nbu", "recovery"]))
     if has(t, "TrustZone"):
-        d.append(Dim("tz", ["disabled", "enabled", "custom-yaml", "custom-bin"]))
+        d.append(Dim("tz", ["disabled", "enabled", "custom-yaml", "custom-bin"] + TZ_YAML[1:]))
     elif has(t, "TrustZoneMandatory", "ManifestCrc", "ManifestDigest"):
-        d.append(Dim("tz", ["enabled", "custom-yaml", "custom-bin"]))
+        d.append(Dim("tz", ["enabled", "custom-yaml", "custom-bin"] + TZ_YAML[1:]))
     if has(t, "HwKey"):
         d.append(Dim("hwkey", [False, True]))
     if has(t, "KeyStore"):
@@ -328,8 +328,31 @@ def reloc_entries(label: str, seed: int) -> list:
             for i, n in enumerate(lens)]
 
 
+TZ_YAML = ["custom-yaml", "custom-yaml-full-rev", "custom-yaml-full-rot", "custom-yaml-part-rev"]
+
+
+def tz_custom_map(spec: Optional[list], label: str) -> list:
+    """[(register name, value)] of a custom preset file, in the order in which the file lists them.
+
+    custom-yaml           first and last register, device order
+    custom-yaml-full-rev  every register, reversed key order, value = 0x01000000 + device index
+    custom-yaml-full-rot  every register, rotated by half the list, value = 0x02000000 + device index
+    custom-yaml-part-rev  last, middle, first register (non-canonical order), value = 0x03000000 + index"""
+    if not spec:
+        return [("no-such-register", 0)]
+    n = len(spec)
+    if label == "custom-yaml":
+        return [(spec[0][0], 0xA5A55A5A), (spec[-1][0], 0x12345678)]
+    if label == "custom-yaml-full-rev":
+        return [(spec[i][0], 0x01000000 + i) for i in reversed(range(n))]
+    if label == "custom-yaml-full-rot":
+        return [(spec[i][0], 0x02000000 + i) for i in list(range(n // 2, n)) + list(range(n // 2))]
+    return [(spec[i][0], 0x03000000 + i) for i in dict.fromkeys((n - 1, n // 2, 0))]
+
+
 def tz_bytes(t: dict, label: str, seed: int) -> Optional[bytes]:
-    """Bytes of the TrustZone preset block the image has to carry (b"" when none)."""
+    """Bytes of the TrustZone preset block the image has to carry (b"" when none): word i is the value
+    configured for the i-th register of the device's TrustZone description (its default otherwise)."""
     if label in ("disabled", "enabled"):
         return b""
     spec = tz_spec(t["fam"], t["rev"])
@@ -337,9 +360,10 @@ def tz_bytes(t: dict, label: str, seed: int) -> Optional[bytes]:
         return core.seeded_bytes(seed, "mbi-tz-bin", 16)
     if label == "custom-bin":
         return core.seeded_bytes(seed, "mbi-tz-bin", 4 * len(spec))
+    index = {name: i for i, (name, _) in enumerate(spec)}
     vals = [v for _, v in spec]
-    vals[0] = 0xA5A55A5A
-    vals[-1] = 0x12345678
+    for name, v in tz_custom_map(spec, label):
+        vals[index[name]] = v
     return struct.pack(f"<{len(vals)}I", *vals)
 
 
@@ -378,9 +402,8 @@ def make_config(case: dict, wd: str, seed: int) -> tuple[dict, dict]:
         lab = o["tz"]
         if has(t, "TrustZone"):
             cfg["enableTrustZone"] = lab != "disabled"
-        if lab == "custom-yaml":
-            spec = tz_spec(t["fam"], t["rev"]) or [("no-such-register", 0)]
-            preset = {spec[0][0]: "0xA5A55A5A", spec[-1][0]: "0x12345678"}
+        if lab in TZ_YAML:
+            preset = {name: f"{v:#010x}" for name, v in tz_custom_map(tz_spec(t["fam"], t["rev"]), lab)}
             _w(os.path.join(wd, "tz.yaml"), json.dumps(
                 {"family": case["fam"], "revision": case.get("rev", "latest"),
                  "tzpOutputFile": "tz_out.bin", "trustZonePreset": preset}))
@@ -388,7 +411,7 @@ def make_config(case: dict, wd: str, seed: int) -> tuple[dict, dict]:
         elif lab == "custom-bin":
             _w(os.path.join(wd, "tz.bin"), tz_bytes(t, lab, seed))
             cfg["trustZonePresetFile"] = "tz.bin"
-        exp["tz_type"] = {"enabled": 0, "custom-yaml": 1, "custom-bin": 1, "disabled": 2}[lab]
+        exp["tz_type"] = {"enabled": 0, "disabled": 2}.get(lab, 1)
         exp["tz"] = tz_bytes(t, lab, seed)
     if "hwkey" in o:
         cfg["enableHwUserModeKeys"] = o["hwkey"]
@@ -856,3 +879,125 @@ def stable_token(ob: dict) -> str:
         if r[0] in VOLATILE:
             img[r[1]:r[2]] = bytes(r[2] - r[1])
     return hashlib.sha1(bytes(img)).hexdigest()[:16]
+
+
+# ---------------------------------------------------------------------------------------------
+# object histories (state carried between exports) and wrong-key attempts
+
+#: step -> (departure that describes the final option set, public attributes replaced on the live object)
+HISTORY_STEPS = {
+    "none": ({}, ()),
+    "app": ({}, ("app",)),  # final payload length differs (case["len2"])
+    "trust_zone": ({"tz": "custom-bin"}, ("trust_zone",)),
+    "key_store": ({"keystore": "full"}, ("key_store",)),
+    "app_table": ({"reloc": "1x4"}, ("app_table",)),
+    "hmac_key": ({"hmackey": "B"}, ("hmac_key",)),
+    "cert_block_v1": ({"depth": 2}, ("cert_block", "signature_provider")),
+    "cert_block_v21": ({"roots": "2/0"}, ("cert_block",)),
+}
+
+
+def history_steps(t: dict) -> list:
+    """Steps that apply to a mixin composition (one length-relevant member each)."""
+    if dev_facts(t)["kind"] != "ivt":
+        return []
+    names = {d.name for d in dims_for(t).dims}
+    out = ["none", "app"]
+    if "tz" in names and not has(t, "ManifestCrc", "ManifestDigest") and tz_spec(t["fam"], t["rev"]):
+        out.append("trust_zone")  # (manifest classes keep the preset inside the manifest object)
+    if "keystore" in names:
+        out.append("key_store")
+    if "reloc" in names:
+        out.append("app_table")
+    if "hmackey" in names:
+        out.append("hmac_key")
+    if has(t, "CertBlockV1"):
+        out.append("cert_block_v1")
+    if has(t, "CertBlockV21"):
+        out.append("cert_block_v21")
+    return out
+
+
+def execute_history(case: dict, wd: str, seed: int) -> dict:
+    """export -> export again -> replace ONE member through its public attribute -> export, next to a FRESH
+    object loaded with the final option set.  case["hist"] names the step."""
+    from spsdk.exceptions import SPSDKError
+
+    step = case["hist"]
+    dep, attrs = HISTORY_STEPS[step]
+    case_b = dict(case, opts=dict(case.get("opts", {}), **dep))
+    if step == "app":
+        case_b["len"] = case.get("len2", 0x200)
+    for d in (wd + "-a", wd + "-b"):
+        if os.path.isdir(d):
+            shutil.rmtree(d)
+        os.makedirs(d)
+    cfg_a, exp_a = make_config(case, wd + "-a", seed)
+    cfg_b, exp_b = make_config(case_b, wd + "-b", seed)
+    ob: dict[str, Any] = {"cfg": cfg_b, "exp": exp_b, "exp_a": exp_a, "status": "ok", "step": step}
+    with det_random(core.short_hash(case)):
+        try:
+            obj = build(cfg_a, wd + "-a")
+            ob["img1"] = bytes(obj.export())
+            ob["img1b"] = bytes(obj.export())
+            donor = build(cfg_b, wd + "-b")
+            fresh = build(cfg_b, wd + "-b")
+            for a in attrs:
+                setattr(obj, a, getattr(donor, a))
+            ob["image"] = bytes(obj.export())
+            ob["fresh"] = bytes(fresh.export())
+        except SPSDKError as e:
+            ob["status"] = "rejected"
+            ob["reject"] = _exc(e)
+        except Exception as e:  # noqa
+            ob["status"] = "exception"
+            ob["error"] = _exc(e)
+    return ob
+
+
+def wrong_key(path: str) -> str:
+    """A private key of the same kind and size that belongs to no certificate / root of the case."""
+    name = os.path.basename(path).rsplit(".", 1)[0]
+    kind = name.rsplit("_", 1)[0]
+    other = f"{kind}_4" if kind.startswith("rsa2048") else f"{kind}_3"
+    if other == name:
+        other = f"{kind}_2"
+    return fixtures.key_path(other)
+
+
+def execute_wrongkey(case: dict, wd: str, seed: int) -> dict:
+    """A signature provider whose key does not match the certificate block: first export, retry on the
+    same object, and a second image that re-uses the provider object.  Each attempt is either refused
+    (SPSDKError) or yields an image, which then has to pass the ROM checks like any other export."""
+    from spsdk.exceptions import SPSDKError
+
+    if os.path.isdir(wd):
+        shutil.rmtree(wd)
+    os.makedirs(wd)
+    cfg, exp = make_config(case, wd, seed)
+    cfg["signPrivateKey"] = wrong_key(exp["sign_key"])
+    ob: dict[str, Any] = {"cfg": cfg, "exp": exp, "status": "ok", "attempts": []}
+
+    def attempt(name: str, fn) -> Any:
+        try:
+            r = fn()
+            if isinstance(r, (bytes, bytearray)):
+                ob["attempts"].append({"name": name, "status": "image", "image": bytes(r)})
+            return r
+        except SPSDKError as e:
+            ob["attempts"].append({"name": name, "status": "refused", "msg": str(e)[:120]})
+        except Exception as e:  # noqa
+            ob["attempts"].append({"name": name, "status": "exception", "error": _exc(e)})
+        return None
+
+    with det_random(core.short_hash(case)):
+        obj = attempt("load", lambda: build(cfg, wd))
+        if obj is None:
+            return ob
+        attempt("first-export", obj.export)
+        attempt("retry-same-object", obj.export)
+        obj2 = attempt("load-second", lambda: build(cfg, wd))
+        if obj2 is not None:
+            obj2.signature_provider = obj.signature_provider
+            attempt("second-image-same-provider", obj2.export)
+    return ob
